@@ -38,6 +38,22 @@ REQUIRED_THEOREMS = [
     "SpecVerif.Props.C13.remove_refines",
     "SpecVerif.Props.C13.containsItem_iff",
     "SpecVerif.Props.C13.locate_by_equality_sound",
+    # two containers at once: a KeyedList as the operand of another one (Model/C13Pair.lean)
+    "SpecVerif.Props.C13.construct_refines",
+    "SpecVerif.Props.C13.coh_construct",
+    "SpecVerif.Props.C13.coh_stepP",
+    "SpecVerif.Props.C13.coh_runP",
+    "SpecVerif.Props.C13.stepP_atomic",
+    "SpecVerif.Props.C13.stepP_frame",
+    "SpecVerif.Props.C13.stepP_lower",
+    "SpecVerif.Props.C13.stepP_refines_list",
+    "SpecVerif.Props.C13.stepP_ignores_operand_index",
+    "SpecVerif.Props.C13.extendFrom_refines",
+    "SpecVerif.Props.C13.ctorFrom_refines",
+    "SpecVerif.Props.C13.newContainer_step",
+    "SpecVerif.Props.C13.coh_newContainer",
+    "SpecVerif.Props.C13.extendFast_sound",
+    "SpecVerif.Props.C13.extendFast_unsound",
 ]
 RULE = (
     "cases = (universe in {self-keyed str, tuple+key fn, keyed spec class, int-keyed tuple, objects whose == ignores "
@@ -45,7 +61,11 @@ RULE = (
     "equal float keys and float-keyed twins}) x (typed/untyped) x "
     "initial container x op sequence; exhaustive over all single ops from every initial container of <= N items "
     "(3 keys x 2 payloads, indices in [-len-1, len+1]) then seeded random sequences of length <= 25; a case is "
-    "non-trivial when an op changed the container or raised; distinct = distinct (universe, typed, pre-state, op) pairs"
+    "non-trivial when an op changed the container or raised; distinct = distinct (universe, typed, pre-state, op) pairs. "
+    "PAIR cases: a second KeyedList (own key function: key field / payload / (key+1) mod 3; own type parameters) next to "
+    "the first one; every cross operation (extend, +=, +, radd, ==, constructor, extend from a slice, self-extension) in "
+    "both directions with the operand handed over as the KeyedList itself / list / tuple / generator / KeyedSet, from "
+    "sampled pairs of containers of <= 2 items (incl. equal and reversed twins), plus random mixed sequences"
 )
 EXHAUSTIVE = {"quick": False, "thorough": False}
 ASSUMPTIONS = [
@@ -53,6 +73,9 @@ ASSUMPTIONS = [
     "hashables) but NOT assumed structural nor to respect keys: the model takes it as a parameter (eqv)",
     "int subscripts on a KeyedList are positions (DESIGN.md section 10 item 4)",
     "keys()/items() are compared in dict insertion order between model and code; the oracle compares them as sets",
+    "a KeyedList handed to another one as an operand is only ever iterated (or, for ==, read through _list): the model of every "
+    "cross operation takes the operand's list and nothing else (stepP_lower, stepP_ignores_operand_index); the tie checks it "
+    "with operands keyed by other key functions, with other type parameters and with an index in another order",
 ]
 
 UNIVERSES = ["self", "tuple", "spec", "intkey", "eqp", "num", "numkey"]
@@ -63,6 +86,11 @@ NUMS = [0, 0.0, False, 1, 1.0, True]
 _It = None
 _Tag = None
 _Other = None
+_BaseTypeError = ()
+# kinds (third token field) whose ITEM type is wrong on the parameterised list of the universe; the other bad kinds only
+# have a wrong KEY type under the universe's own key function and are admissible when the list is keyed differently
+ITEMBAD = {"self": "1", "tuple": "1", "spec": "1", "intkey": "1", "numkey": "1", "eqp": "1", "num": "12"}
+KEYMODES = [0, 1, 2]  # key function of a container on tokens: 0 the key field, 1 the payload, 2 (key + 1) mod 3
 
 
 def setup():
@@ -78,7 +106,10 @@ def setup():
 
     _It = It
 
-    global _Tag, _Other
+    global _Tag, _Other, _BaseTypeError
+    from spec_classes.errors import BaseTypeError
+
+    _BaseTypeError = BaseTypeError  # typed construction raises this (a BaseException) for a wrong item / key type
 
     def item_class(cls_name):
         class C:
@@ -229,7 +260,16 @@ def _unreal_key(u, k):
         for i, v in enumerate(NUMS):
             if repr(v) == k:
                 return i
+        if k[:1] in "'(":  # repr of an inadmissible item that an unparameterised list holds: 's101' / ('t', 102)
+            import ast
+
+            v = ast.literal_eval(k)
+            return int(v[1:]) if isinstance(v, str) else v[1]
         return int(k)
+    if u == "self" and isinstance(k, int) and k >= 1000:
+        return (k - 1000) // 10  # an int item is its own key
+    if u == "spec" and isinstance(k, tuple) and k[:1] == ("notspec",):
+        return k[1]  # a hashable non-spec item is its own key
     if isinstance(k, float):
         return int(k)
     if isinstance(k, int):
@@ -240,16 +280,61 @@ def _unreal_key(u, k):
     raise ValueError(k)
 
 
-def make_list(u, typed, items=()):
+def stored_key(u, k):
+    """the key object that universe `u` stores for token key `k` of an admissible item"""
+    if u in ("intkey", "numkey"):
+        return k
+    if u == "num":
+        return repr(NUMS[k]) if 0 <= k < len(NUMS) else str(k)
+    return f"k{k}"
+
+
+def token_key(keymode, it):
+    """the three key functions, on tokens (Drivers/C13.lean `keyOf`)"""
+    if keymode == 1:
+        return it[1]
+    if keymode == 2:
+        return (it[0] + 1) % 3
+    return it[0]
+
+
+def key_function(u, keymode=0):
+    """`key=` argument of a container of universe `u`. Mode 0 is the universe's own key function; modes 1 and 2 key the
+    SAME items differently (pure functions of the item; the keys have the universe's key type)."""
+    if keymode:
+        return lambda obj: stored_key(u, token_key(keymode, _unreal_item(u, obj)))
+    if u in ("tuple", "intkey", "numkey"):
+        return lambda x: x[0]
+    if u == "eqp":
+        return lambda x: x.name
+    if u == "num":
+        return repr
+    return None
+
+
+def item_key(u, keymode, obj):
+    """the key of a real item under the container's key function (the harness's own computation)"""
+    f = key_function(u, keymode)
+    if f is not None:
+        return f(obj)
+    if u == "spec" and isinstance(obj, _It):
+        return obj.key
+    return obj
+
+
+def ok_kinds(u, typed, keymode=0):
+    """admissible kinds of a container, as the driver's `okkinds` token"""
+    if not typed:
+        return "*"
+    if keymode == 0:
+        return "0"
+    return "".join(b for b in "0123" if b not in ITEMBAD[u])
+
+
+def make_list(u, typed, items=(), keymode=0):
     from spec_classes.types import KeyedList
 
-    keyfn = None
-    if u in ("tuple", "intkey", "numkey"):
-        keyfn = lambda x: x[0]  # noqa: E731
-    if u == "eqp":
-        keyfn = lambda x: x.name  # noqa: E731
-    if u == "num":
-        keyfn = repr
+    keyfn = key_function(u, keymode)
     if typed:
         from typing import Any
 
@@ -275,8 +360,18 @@ def optint(x):
     return "_" if x is None else str(x)
 
 
+SIDES = ("m", "o")
+CROSS = ("extendFrom", "iaddFrom", "extendSelf", "extendFromSlice", "addFrom", "raddFrom", "eqFrom", "ctorFrom")
+
+
 def op_line(op):
     name = op[0]
+    if name == "o":
+        return "o " + op_line(op[1:])
+    if name == "extendFromSlice":
+        return f"{name} {op[1]} {optint(op[2])} {optint(op[3])}"
+    if name in CROSS:
+        return f"{name} {op[1]}"  # op[2] = how the operand is handed over: not the model's business
     if name in ("getIdx", "delIdx", "getKey", "delKey", "containsKey", "get", "indexForKey"):
         return f"{name} {op[1]}"
     if name == "getSlice":
@@ -299,13 +394,36 @@ def model_lines(case):
     head = " ".join(
         ["new", "1" if typed else "0", "1" if u == "self" else "0", str(EQMODE[u])] + [tok(x) for x in case["init"]]
     )
-    return [head] + [op_line(op) for op in case["ops"]]
+    lines = [head]
+    if case.get("other"):
+        o = case["other"]
+        lines.append(" ".join(["onew", ok_kinds(u, o["typed"], o["keymode"]), str(o["keymode"])] + [tok(x) for x in o["init"]]))
+    return lines + [op_line(_as_item(u, op)) for op in case["ops"]]
+
+
+def _as_item(u, op):
+    """Self-keyed strings: the key object `"k1"` IS the item `"k1"`, so `"k1" in l` is one and the same expression
+    whether it is meant as a key or as an item — `__contains__` of an item (index hit through the item-as-key, else
+    list membership). It only matters when the container is keyed by another key function."""
+    if u == "self":
+        if op[0] == "o":
+            return ["o"] + list(_as_item(u, op[1:]))
+        if op[0] == "containsKey" and 0 <= op[1] < 100:
+            return ["containsItem", [op[1], 0, 0]]
+    return op
+
+
+def base(case):
+    """number of header lines before the first op line"""
+    return 2 if case.get("other") else 1
 
 
 ERRS = ("IndexError", "KeyError", "ValueError", "TypeError", "RuntimeError", "AttributeError")
 
 
 def err_name(e):
+    if _BaseTypeError and isinstance(e, _BaseTypeError):
+        return "TypeError"
     for n in ERRS:
         if type(e).__name__ == n:
             return n
@@ -327,7 +445,29 @@ def show_state(u, l):
     return show_items(u, list(l)) + " ;; " + show_dict(u, list(l.items()))
 
 
-def apply_real(u, l, op):
+def _exc():
+    return (Exception, _BaseTypeError) if _BaseTypeError else (Exception,)
+
+
+def show_kl(u, r):
+    return "kl " + show_items(u, list(r)) + " " + show_dict(u, list(r.items()))
+
+
+def _new(u, r, on_new):
+    """An operation returned a NEW container: print all of it (items and key index), let the oracle look at it, then
+    empty it — a result that shares storage with the container it was made from empties that one too, which shows in
+    the state that is printed next."""
+    out = show_kl(u, r)
+    if on_new is not None:
+        on_new(r)
+    try:
+        r.clear()
+    except Exception:
+        pass
+    return out
+
+
+def apply_real(u, l, op, on_new=None):
     """Returns the canonical output token for one op on the real container."""
     name = op[0]
     RI = lambda x: real_item(u, tuple(x))  # noqa: E731
@@ -337,7 +477,7 @@ def apply_real(u, l, op):
     if name == "getKey":
         return "item " + tok(unreal_item(u, l[RK(op[1])]))
     if name == "getSlice":
-        return "items " + show_items(u, list(l[op[1] : op[2]]))
+        return _new(u, l[op[1] : op[2]], on_new)
     if name == "setIdx":
         l[op[1]] = RI(op[2])
         return "ok"
@@ -383,11 +523,9 @@ def apply_real(u, l, op):
         l.clear()
         return "ok"
     if name == "add":
-        r = l + [RI(x) for x in op[1]]
-        return "items " + show_items(u, list(r))
+        return _new(u, l + [RI(x) for x in op[1]], on_new)
     if name == "radd":
-        r = [RI(x) for x in op[1]] + l
-        return "items " + show_items(u, list(r))
+        return _new(u, [RI(x) for x in op[1]] + l, on_new)
     if name == "containsItem":
         return "bool " + ("1" if RI(op[1]) in l else "0")
     if name == "containsKey":
@@ -414,21 +552,109 @@ def apply_real(u, l, op):
     raise ValueError(op)
 
 
+class Pair:
+    """The real containers of a case: `m` (main) and, in a pair case, `o` (other) with its own configuration."""
+
+    def __init__(self, case):
+        self.u = case["universe"]
+        self.cfg = {"m": (case["typed"], 0)}
+        if case.get("other"):
+            self.cfg["o"] = (case["other"]["typed"], case["other"]["keymode"])
+        self.c = {}
+
+    def build(self, s, init):
+        u = self.u
+        typed, keymode = self.cfg[s]
+        try:
+            self.c[s] = make_list(u, typed, [real_item(u, tuple(x)) for x in init], keymode)
+            return None
+        except _exc() as e:
+            self.c[s] = make_list(u, typed, (), keymode)
+            return err_name(e)
+
+    def show(self):
+        return " ;; ".join(show_state(self.u, self.c[s]) for s in SIDES if s in self.c)
+
+    def snapshot(self):
+        return [(list(self.c[s]), list(self.c[s].items())) for s in SIDES if s in self.c]
+
+
+def flip(s):
+    return "o" if s == "m" else "m"
+
+
+def hand_over(P, s, via):
+    """container `s` as the ARGUMENT of an operation of the other one"""
+    c = P.c[s]
+    if via == "kl":
+        return c
+    if via == "list":
+        return list(c)
+    if via == "tuple":
+        return tuple(c)
+    if via == "iter":
+        return (x for x in c)  # lazily walks the live container
+    if via == "kset":
+        from spec_classes.types import KeyedSet
+
+        return KeyedSet(list(c), key=key_function(P.u, P.cfg[s][1]))  # has a `_dict` (keyed like `s`) but no `_list`
+    raise ValueError(via)
+
+
+def apply_pair(P, op, on_new=None):
+    name = op[0]
+    u = P.u
+    if name == "o":
+        return apply_real(u, P.c["o"], op[1:], on_new)
+    if name not in CROSS:
+        return apply_real(u, P.c["m"], op, on_new)
+    s = op[1]
+    r, t = P.c[s], flip(s)
+    if name == "extendFrom":
+        r.extend(hand_over(P, t, op[2]))
+        return "ok"
+    if name == "iaddFrom":
+        r2 = r
+        r2 += hand_over(P, t, op[2])
+        assert r2 is r
+        return "ok"
+    if name == "extendSelf":
+        if op[2] == "iadd":
+            r2 = r
+            r2 += r
+            assert r2 is r
+            return "ok"
+        r.extend(hand_over(P, s, op[2]))
+        return "ok"
+    if name == "extendFromSlice":
+        r.extend(P.c[t][op[2] : op[3]])
+        return "ok"
+    if name == "addFrom":
+        return _new(u, r + hand_over(P, t, op[2]), on_new)
+    if name == "raddFrom":
+        return _new(u, hand_over(P, t, op[2]) + r, on_new)
+    if name == "eqFrom":
+        return "bool " + ("1" if r == hand_over(P, t, op[2]) else "0")
+    if name == "ctorFrom":
+        typed, keymode = P.cfg[s]
+        return _new(u, make_list(u, typed, hand_over(P, t, op[2]), keymode), on_new)
+    raise ValueError(op)
+
+
 def real_lines(case):
-    u, typed = case["universe"], case["typed"]
+    P = Pair(case)
     out = []
-    try:
-        l = make_list(u, typed, [real_item(u, tuple(x)) for x in case["init"]])
-        out.append("ok ;; " + show_state(u, l))
-    except Exception as e:
-        l = make_list(u, typed)
-        out.append(f"err {err_name(e)} ;; " + show_state(u, l))
+    e = P.build("m", case["init"])
+    out.append(("ok" if e is None else f"err {e}") + " ;; " + P.show())
+    if case.get("other"):
+        e = P.build("o", case["other"]["init"])
+        out.append(("ok" if e is None else f"err {e}") + " ;; " + P.show())
     for op in case["ops"]:
         try:
-            o = apply_real(u, l, op)
-        except Exception as e:
+            o = apply_pair(P, op)
+        except _exc() as e:
             o = "err " + err_name(e)
-        out.append(o + " ;; " + show_state(u, l))
+        out.append(o + " ;; " + P.show())
     return out
 
 
@@ -442,161 +668,270 @@ MUTATORS = {
 }
 
 
-def oracle(case):
-    u, typed = case["universe"], case["typed"]
-    key = lambda it: it[0]  # noqa: E731  (token level)
-    bad = lambda it: typed and it[2] != 0  # noqa: E731
-    viol = []
-    init = [tuple(x) for x in case["init"]]
-    try:
-        l = make_list(u, typed, [real_item(u, x) for x in init])
-        ref = list(init)
-        if len({key(x) for x in init}) != len(init) or any(bad(x) for x in init):
-            viol.append(f"construction from {init} should have raised")
-    except (ValueError, TypeError):
-        l = make_list(u, typed)
-        ref = []
-        if len({key(x) for x in init}) == len(init) and not any(bad(x) for x in init):
-            viol.append(f"construction from {init} raised")
+class _Ref:
+    """One container as the property text sees it: a plain list of (token) items, the container's own key function
+    and the admissibility rule of its type parameters."""
 
-    def scan(k):
-        for i, x in enumerate(ref):
-            if key(x) == k:
+    def __init__(self, u, typed, keymode):
+        self.u, self.typed, self.keymode = u, typed, keymode
+        self.kinds = ok_kinds(u, typed, keymode)
+        self.ref = []
+
+    def key(self, it):
+        return token_key(self.keymode, it)
+
+    def bad(self, it):
+        return self.kinds != "*" and str(it[2]) not in self.kinds
+
+    def dup(self, items):
+        return len({self.key(x) for x in items}) != len(items)
+
+    def scan(self, k, ref=None):
+        for i, x in enumerate(self.ref if ref is None else ref):
+            if self.key(x) == k:
                 return i, x
         return None, None
 
-    def plain():
+    def plain(self):
         """a plain Python list holding the same items: `==` is whatever the items define"""
-        return [real_item(u, x) for x in ref]
+        return [real_item(self.u, x) for x in self.ref]
 
-    def expected(op):
-        """(acceptable error names, new reference list or None if unchanged, expected value or None)"""
-        name = op[0]
-        new = list(ref)
-        errs = set()
-        val = None
-        try:
-            if name == "getIdx":
-                val = ("item", new[op[1]])
-            elif name == "getKey":
-                i, x = scan(op[1])
-                if i is None:
-                    errs.add("KeyError")
-                else:
-                    val = ("item", x)
-            elif name == "getSlice":
-                val = ("items", new[op[1] : op[2]])
-            elif name in ("setIdx", "setKey"):
-                x = tuple(op[2])
-                if name == "setKey":
-                    i, _ = scan(op[1])
-                    if i is None:
-                        errs.add("KeyError")
-                        return errs, None, None
-                else:
-                    i = op[1]
-                new[i] = x
-                if bad(x):
-                    errs.add("TypeError")
-            elif name in ("delIdx", "delKey"):
-                if name == "delKey":
-                    i, _ = scan(op[1])
-                    if i is None:
-                        errs.add("KeyError")
-                        return errs, None, None
-                else:
-                    i = op[1]
-                del new[i]
-            elif name in ("setSlice", "delSlice"):
-                errs.add("RuntimeError")
-            elif name == "insert":
-                new.insert(op[1], tuple(op[2]))
-                if bad(tuple(op[2])):
-                    errs.add("TypeError")
-            elif name == "append":
-                new.append(tuple(op[1]))
-                if bad(tuple(op[1])):
-                    errs.add("TypeError")
-            elif name in ("extend", "iadd"):
-                xs = [tuple(x) for x in op[1]]
-                new.extend(xs)
-                if any(bad(x) for x in xs):
-                    errs.add("TypeError")
-            elif name == "pop":
-                v = new.pop() if op[1] is None else new.pop(op[1])
-                val = ("item", v)
-            elif name == "remove":
-                del new[plain().index(real_item(u, tuple(op[1])))]  # list.remove = delete the first == item
-            elif name == "reverse":
-                new.reverse()
-            elif name == "clear":
-                new.clear()
-            elif name in ("add", "radd"):
-                xs = [tuple(x) for x in op[1]]
-                res = new + xs if name == "add" else xs + new
-                if len({key(x) for x in res}) != len(res):
-                    errs.add("ValueError")
-                val = ("items", res)
-                return errs, None, val
-            elif name == "containsItem":
-                x = tuple(op[1])
-                val = ("bool", real_item(u, x) in plain() or (u == "self" and scan(key(x))[0] is not None))
-            elif name == "containsKey":
-                val = ("bool", scan(op[1])[0] is not None)
-            elif name == "index":
-                val = ("nat", plain().index(real_item(u, tuple(op[1]))))
-            elif name == "count":
-                val = ("nat", plain().count(real_item(u, tuple(op[1]))))
-            elif name == "get":
-                val = ("opt", scan(op[1])[1])
-            elif name == "indexForKey":
+
+def _lowered(S, T, op):
+    """A cross operation as the plain-list operation it must behave like: handing over a KeyedList (or any other
+    iterable of its items) is handing over its items, in order."""
+    name = op[0]
+    if name == "extendFrom":
+        return ("extend", list(T.ref))
+    if name == "iaddFrom":
+        return ("iadd", list(T.ref))
+    if name == "extendSelf":
+        return ("extend", list(S.ref))
+    if name == "extendFromSlice":
+        return ("extend", list(T.ref[op[2] : op[3]]))
+    if name == "addFrom":
+        return ("add", list(T.ref))
+    if name == "raddFrom":
+        return ("radd", list(T.ref))
+    if name == "eqFrom":
+        return ("eqList", list(T.ref))
+    raise ValueError(op)
+
+
+def _expected(S, op):
+    """(acceptable error names, new reference list or None if unchanged, expected value or None)"""
+    u, ref, key, bad, scan = S.u, S.ref, S.key, S.bad, S.scan
+    name = op[0]
+    new = list(ref)
+    errs = set()
+    val = None
+    try:
+        if name == "getIdx":
+            val = ("item", new[op[1]])
+        elif name == "getKey":
+            i, x = scan(op[1])
+            if i is None:
+                errs.add("KeyError")
+            else:
+                val = ("item", x)
+        elif name == "getSlice":
+            val = ("kl", new[op[1] : op[2]])
+        elif name in ("setIdx", "setKey"):
+            x = tuple(op[2])
+            if name == "setKey":
                 i, _ = scan(op[1])
                 if i is None:
                     errs.add("KeyError")
-                else:
-                    val = ("nat", i)
-            elif name == "len":
-                val = ("nat", len(new))
-            elif name == "iter":
-                val = ("items", new)
-            elif name == "keys":
-                val = ("keyset", {key(x) for x in new})
-            elif name == "items":
-                val = ("pairset", {(key(x), x) for x in new})
-            elif name == "eqList":
-                val = ("bool", plain() == [real_item(u, tuple(x)) for x in op[1]])
-        except IndexError:
-            errs.add("IndexError")
-            return errs, None, None
-        except ValueError:
-            errs.add("ValueError")
-            return errs, None, None
-        if name in MUTATORS:
-            if len({key(x) for x in new}) != len(new):
+                    return errs, None, None
+            else:
+                i = op[1]
+            new[i] = x
+            if bad(x):
+                errs.add("TypeError")
+        elif name in ("delIdx", "delKey"):
+            if name == "delKey":
+                i, _ = scan(op[1])
+                if i is None:
+                    errs.add("KeyError")
+                    return errs, None, None
+            else:
+                i = op[1]
+            del new[i]
+        elif name in ("setSlice", "delSlice"):
+            errs.add("RuntimeError")
+        elif name == "insert":
+            new.insert(op[1], tuple(op[2]))
+            if bad(tuple(op[2])):
+                errs.add("TypeError")
+        elif name == "append":
+            new.append(tuple(op[1]))
+            if bad(tuple(op[1])):
+                errs.add("TypeError")
+        elif name in ("extend", "iadd"):
+            xs = [tuple(x) for x in op[1]]
+            new.extend(xs)
+            if any(bad(x) for x in xs):
+                errs.add("TypeError")
+        elif name == "pop":
+            v = new.pop() if op[1] is None else new.pop(op[1])
+            val = ("item", v)
+        elif name == "remove":
+            del new[S.plain().index(real_item(u, tuple(op[1])))]  # list.remove = delete the first == item
+        elif name == "reverse":
+            new.reverse()
+        elif name == "clear":
+            new.clear()
+        elif name in ("add", "radd"):
+            xs = [tuple(x) for x in op[1]]
+            res = new + xs if name == "add" else xs + new
+            if S.dup(res):
                 errs.add("ValueError")
-        if name in MUTATORS and errs:
-            return errs, None, None
-        return errs, (new if name in MUTATORS else None), val
+            val = ("kl", res)
+            return errs, None, val
+        elif name == "ctor":
+            res = [tuple(x) for x in op[1]]
+            if S.dup(res):
+                errs.add("ValueError")
+            if any(bad(x) for x in res):
+                errs.add("TypeError")
+            return errs, None, ("kl", res)
+        elif name == "containsItem":
+            x = tuple(op[1])
+            # an item that IS a key (self-keyed universe): `x in l` also answers "is there an item with key x"
+            val = ("bool", real_item(u, x) in S.plain() or (u == "self" and x[2] == 0 and scan(x[0])[0] is not None))
+        elif name == "containsKey":
+            # `k in l`: an item with that key — or, where the key object is itself a possible ITEM (self-keyed strings
+            # under another key function), that item
+            val = ("bool", scan(op[1])[0] is not None or (u == "self" and (op[1], 0, 0) in ref))
+        elif name == "index":
+            val = ("nat", S.plain().index(real_item(u, tuple(op[1]))))
+        elif name == "count":
+            val = ("nat", S.plain().count(real_item(u, tuple(op[1]))))
+        elif name == "get":
+            val = ("opt", scan(op[1])[1])
+        elif name == "indexForKey":
+            i, _ = scan(op[1])
+            if i is None:
+                errs.add("KeyError")
+            else:
+                val = ("nat", i)
+        elif name == "len":
+            val = ("nat", len(new))
+        elif name == "iter":
+            val = ("items", new)
+        elif name == "keys":
+            val = ("keyset", {key(x) for x in new})
+        elif name == "items":
+            val = ("pairset", {(key(x), x) for x in new})
+        elif name == "eqList":
+            val = ("bool", S.plain() == [real_item(u, tuple(x)) for x in op[1]])
+    except IndexError:
+        errs.add("IndexError")
+        return errs, None, None
+    except ValueError:
+        errs.add("ValueError")
+        return errs, None, None
+    if name in MUTATORS:
+        if S.dup(new):
+            errs.add("ValueError")
+    if name in MUTATORS and errs:
+        return errs, None, None
+    return errs, (new if name in MUTATORS else None), val
+
+
+def _by_key_is_scan(S, l, ref, label, viol):
+    """access by key on the real container `l` (which should hold `ref`) agrees with a linear scan using S's key"""
+    u = S.u
+    keys = {S.key(x) for x in ref} | set(universe_keys(u))
+    for k in keys:
+        i, x = S.scan(k, ref)
+        # the key object to ask with; an inadmissible item (held by an unparameterised list) has a key of its own form
+        rk = real_key(u, k) if k < 100 or x is None else item_key(u, S.keymode, real_item(u, x))
+        g = l.get(rk)
+        if (g is None) != (x is None) or (g is not None and unreal_item(u, g) != x):
+            viol.append(f"{label}: get({k}) = {g!r} but scan gives {x}")
+        try:
+            gi = l.index_for_key(rk)
+        except KeyError:
+            gi = None
+        if gi != i:
+            viol.append(f"{label}: index_for_key({k}) = {gi} but scan gives {i}")
+        # `k in l`: an item with that key — or, where the key object is itself a possible ITEM (self-keyed strings
+        # under another key function), that item
+        present = x is not None or (u == "self" and any(y[0] == k and y[2] == 0 for y in ref))
+        if (rk in l) != present and not (u == "intkey"):
+            viol.append(f"{label}: ({k} in l) = {rk in l} but scan gives {x}")
+        if u != "intkey" and not isinstance(rk, int):  # an int subscript is a position
+            try:
+                gk = unreal_item(u, l[rk])
+            except KeyError:
+                gk = None
+            if gk != x:
+                viol.append(f"{label}: l[{k}] = {gk} but scan gives {x}")
+    if {unreal_key(u, k) for k in l.keys()} != {S.key(x) for x in ref}:
+        viol.append(f"{label}: keys() disagree with the list")
+
+
+def oracle(case):
+    u = case["universe"]
+    viol = []
+    P = Pair(case)
+    R = {}
+    for s in SIDES:
+        if s not in P.cfg:
+            continue
+        typed, keymode = P.cfg[s]
+        S = R[s] = _Ref(u, typed, keymode)
+        init = [tuple(x) for x in (case["init"] if s == "m" else case["other"]["init"])]
+        should_fail = S.dup(init) or any(S.bad(x) for x in init)
+        e = P.build(s, init)
+        if e is None:
+            S.ref = list(init)
+            if should_fail:
+                viol.append(f"construction of {s} from {init} should have raised")
+        else:
+            if e not in ("ValueError", "TypeError") or not should_fail:
+                viol.append(f"construction of {s} from {init} raised {e}")
 
     for n, op in enumerate(case["ops"]):
-        errs, new, val = expected(op)
-        before = (list(l), list(l.items()))
+        name = op[0]
+        # which container runs the operation, and the plain-list operation it has to behave like
+        if name == "o":
+            S, low = R["o"], tuple(op[1:])
+        elif name == "ctorFrom":
+            S, low = R[op[1]], ("ctor", list(R[flip(op[1])].ref))
+        elif name in CROSS:
+            S, low = R[op[1]], _lowered(R[op[1]], R[flip(op[1])], op)
+        else:
+            S, low = R["m"], tuple(op)
+        errs, new, val = _expected(S, low)
+        before = P.snapshot()
+        refs_before = {s: list(T.ref) for s, T in R.items()}
+        made = []
+
+        def on_new(r, S=S, val=val, n=n, op=op, made=made):
+            made.append(r)
+            if val is not None and val[0] == "kl":
+                got = [unreal_item(u, x) for x in r]
+                if got == val[1]:
+                    _by_key_is_scan(S, r, val[1], f"op#{n} {op}: result", viol)
+
         try:
-            out = apply_real(u, l, op)
+            out = apply_pair(P, op, on_new)
             got_err = None
-        except Exception as e:
+        except _exc() as e:
             got_err = err_name(e)
             out = None
         if got_err is not None:
             if got_err not in errs:
                 viol.append(f"op#{n} {op}: raised {got_err}, a plain list with unique keys would {'raise ' + '/'.join(sorted(errs)) if errs else 'succeed'}")
-            if (list(l), list(l.items())) != before:
+            if P.snapshot() != before:
                 viol.append(f"op#{n} {op}: raised {got_err} but the container changed")
         else:
             if errs:
                 viol.append(f"op#{n} {op}: succeeded, expected {'/'.join(sorted(errs))}")
             if new is not None:
-                ref[:] = new
+                S.ref[:] = new
             if val is not None:
                 kind, v = val
                 exp = None
@@ -612,48 +947,39 @@ def oracle(case):
                     exp = "opt _" if v is None else "opt " + tok(v)
                 if exp is not None and out != exp:
                     viol.append(f"op#{n} {op}: returned {out!r}, plain list gives {exp!r}")
+                if kind == "kl" and not errs:
+                    exp = "kl [" + ",".join(tok(x) for x in v) + "]"
+                    if out.rsplit(" ", 1)[0] != exp:
+                        viol.append(f"op#{n} {op}: returned {out!r}, plain list gives {exp!r}")
                 if kind == "keyset":
-                    got = {unreal_key(u, k) for k in l.keys()}
+                    got = {unreal_key(u, k) for k in S_real(P, op).keys()}
                     if got != v:
                         viol.append(f"op#{n} keys() {got} != scan {v}")
                 if kind == "pairset":
-                    got = {(unreal_key(u, k), unreal_item(u, x)) for k, x in l.items()}
+                    got = {(unreal_key(u, k), unreal_item(u, x)) for k, x in S_real(P, op).items()}
                     if got != v:
                         viol.append(f"op#{n} items() {got} != scan {v}")
-        # state agreement with the plain list and by-key access = linear scan
-        cur = [unreal_item(u, x) for x in l]
-        if cur != ref:
-            viol.append(f"op#{n} {op}: container is {cur}, plain list is {ref}")
-            ref[:] = cur  # resynchronise so later ops are judged on their own
-        if len(l) != len(ref):
-            viol.append(f"op#{n} len {len(l)} != {len(ref)}")
-        keys = {key(x) for x in ref} | set(universe_keys(u))
-        for k in keys:
-            i, x = scan(k)
-            rk = real_key(u, k)
-            g = l.get(rk)
-            if (g is None) != (x is None) or (g is not None and unreal_item(u, g) != x):
-                viol.append(f"op#{n} {op}: get({k}) = {g!r} but scan gives {x}")
-            try:
-                gi = l.index_for_key(rk)
-            except KeyError:
-                gi = None
-            if gi != i:
-                viol.append(f"op#{n} {op}: index_for_key({k}) = {gi} but scan gives {i}")
-            if (rk in l) != (x is not None) and not (u == "intkey"):
-                viol.append(f"op#{n} {op}: ({k} in l) = {rk in l} but scan gives {x}")
-            if u != "intkey":
-                try:
-                    gk = unreal_item(u, l[rk])
-                except KeyError:
-                    gk = None
-                if gk != x:
-                    viol.append(f"op#{n} {op}: l[{k}] = {gk} but scan gives {x}")
-        if {unreal_key(u, k) for k in l.keys()} != {key(x) for x in ref}:
-            viol.append(f"op#{n} {op}: keys() disagree with the list")
+        # every container: state agreement with its plain list (so an operation changes nothing but its receiver)
+        # and by-key access = linear scan with the container's OWN key function
+        after = P.snapshot()
+        for j, (s, T) in enumerate(R.items()):
+            l = P.c[s]
+            if n > 0 and after[j] == before[j] and T.ref == refs_before[s] and not viol:
+                continue  # list, key index and the plain list are what they were when this container was last judged
+            cur = [unreal_item(u, x) for x in l]
+            if cur != T.ref:
+                viol.append(f"op#{n} {op}: container {s} is {cur}, plain list is {T.ref}")
+                T.ref[:] = cur  # resynchronise so later ops are judged on their own
+            if len(l) != len(T.ref):
+                viol.append(f"op#{n} len {len(l)} != {len(T.ref)}")
+            _by_key_is_scan(T, l, T.ref, f"op#{n} {op}" + (f" [{s}]" if s != "m" else ""), viol)
         if len(viol) > 5:
             break
     return viol
+
+
+def S_real(P, op):
+    return P.c["o"] if op[0] == "o" else P.c["m"]
 
 
 # ---------------------------------------------------------------------------
@@ -701,6 +1027,116 @@ def universe_items(u, typed):
     return good, badl
 
 
+def side_items(u, typed, keymode=0):
+    """(admissible, inadmissible) items for a container keyed by `keymode`: on a parameterised list that is keyed
+    differently, the kinds that only had a wrong KEY type are admissible"""
+    if not typed or keymode == 0:
+        return universe_items(u, typed)
+    good, badl = universe_items(u, True)
+    kinds = ok_kinds(u, typed, keymode)
+    return good + [x for x in badl if str(x[2]) in kinds], [x for x in badl if str(x[2]) not in kinds]
+
+
+def side_states(u, typed, keymode, maxlen):
+    good, _ = side_items(u, typed, keymode)
+    states = [[]]
+    for n in range(1, maxlen + 1):
+        for combo in itertools.permutations(good, n):
+            if len({token_key(keymode, x) for x in combo}) == n:
+                states.append(list(combo))
+    return states
+
+
+VIAS = {
+    "extendFrom": ("kl", "list", "tuple", "iter", "kset"),
+    "iaddFrom": ("kl", "list", "iter"),
+    "extendSelf": ("kl", "iter", "iadd"),  # l.extend(l), l.extend(x for x in l), l += l
+    "addFrom": ("kl", "list", "tuple"),
+    "raddFrom": ("list", "tuple"),  # `plain + s` (a KeyedList on the left would run ITS __add__ = addFrom of the other side)
+    "eqFrom": ("kl", "list"),
+    "ctorFrom": ("kl", "list", "tuple", "iter", "kset"),
+}
+SLICES = ((None, None), (1, None), (None, 1), (-1, None))
+
+
+def cross_mutators():
+    ops = []
+    for s in SIDES:
+        for name in ("extendFrom", "iaddFrom", "extendSelf"):
+            ops += [(name, s, v) for v in VIAS[name]]
+        ops += [("extendFromSlice", s, a, b) for a, b in SLICES]
+    return ops
+
+
+def cross_reads():
+    return [(name, s, v) for s in SIDES for name in ("addFrom", "raddFrom", "eqFrom", "ctorFrom") for v in VIAS[name]]
+
+
+# the state of BOTH containers (list and key index) is printed and judged after every operation anyway; the explicit
+# reads only add the `keys()` / `items()` methods themselves
+READS = [["keys"], ["o", "items"]]
+
+
+def pair_configs():
+    return [(u, tm, to, km) for u in UNIVERSES for tm in (False, True) for to in (False, True) for km in KEYMODES]
+
+
+def pair_cases(tier, rng):
+    """Two containers: every cross operation, both directions, every way of handing the operand over. Quick: per
+    configuration (universe x typed main x typed other x key function of the other) a sample of pairs of containers of
+    <= 2 items — always including an other that holds the same items as main and one that holds them reversed — and per
+    pair a sample of the mutating cross operations (one case each, followed by the reads) plus one case chaining every
+    non-mutating cross operation."""
+    npairs, nmut = (8, 8) if tier == "quick" else (60, 10**6)
+    muts, reads = cross_mutators(), cross_reads()
+    for u, tm, to, km in pair_configs():
+        ms = side_states(u, tm, 0, 2)
+        os_ = side_states(u, to, km, 2)
+        valid_o = {tuple(x) for x in os_}
+        pairs = [(rng.choice(ms), rng.choice(os_)) for _ in range(npairs)]
+        for _ in range(2):
+            m = rng.choice([x for x in ms if len(x) == 2])
+            for twin in (list(m), list(reversed(m))):
+                if tuple(twin) in valid_o:
+                    pairs.append((m, twin))
+        for m, o in pairs:
+            prefix = rng.choice([[], [], [["o", "reverse"]], [["reverse"]], [["o", "reverse"], ["reverse"]]])
+            hdr = {
+                "universe": u, "typed": tm, "init": [list(x) for x in m],
+                "other": {"typed": to, "keymode": km, "init": [list(x) for x in o]},
+            }
+            for op in (muts if len(muts) <= nmut else rng.sample(muts, nmut)):
+                yield {**hdr, "ops": prefix + [list(op)], "origin": "pair-single"}
+            rd = reads if tier != "quick" else rng.sample(reads, 12)
+            yield {**hdr, "ops": prefix + [list(op) for op in rd] + READS, "origin": "pair-reads"}
+
+
+def random_pair_op(u, P, rng, n):
+    """P = {side: (typed, keymode)}"""
+    r = rng.random()
+    if r < 0.3:
+        name = rng.choice(("extendFrom", "extendFrom", "iaddFrom", "extendSelf", "extendFromSlice", "addFrom", "raddFrom", "eqFrom", "ctorFrom"))
+        s = rng.choice(SIDES)
+        if name == "extendFromSlice":
+            return (name, s, rng.choice([None, rng.randint(-n - 1, n + 1)]), rng.choice([None, rng.randint(-n - 1, n + 1)]))
+        return (name, s, rng.choice(VIAS[name]))
+    if r < 0.6:
+        return ("o",) + tuple(random_op(u, P["o"][0], rng, n, P["o"][1]))
+    return random_op(u, P["m"][0], rng, n)
+
+
+def random_other(u, rng):
+    typed, km = rng.random() < 0.5, rng.choice(KEYMODES)
+    good, _ = side_items(u, typed, km)
+    init = []
+    for x in rng.sample(good, rng.randint(0, min(3, len(good)))):
+        if token_key(km, x) not in {token_key(km, y) for y in init}:
+            init.append(list(x))
+    if rng.random() < 0.04:
+        init.append(list(rng.choice(good)))  # possibly a duplicate key (under ITS key function) at construction
+    return {"typed": typed, "keymode": km, "init": init}
+
+
 def single_ops(u, typed, n):
     good, badl = universe_items(u, typed)
     items = good + badl
@@ -738,8 +1174,8 @@ def initial_states(u, maxlen, typed=False):
     return states
 
 
-def random_op(u, typed, rng, n):
-    good, badl = universe_items(u, typed)
+def random_op(u, typed, rng, n, keymode=0):
+    good, badl = side_items(u, typed, keymode)
     items = good + badl if rng.random() < 0.25 else good
     x = lambda: list(rng.choice(items))  # noqa: E731
     i = lambda: rng.randint(-n - 1, n + 1)  # noqa: E731
@@ -777,6 +1213,12 @@ def gen_cases(tier, rng):
                 if x[0] not in seen:
                     seen.add(x[0])
                     init2.append(list(x))
+            if rng.random() < 0.4:
+                other = random_other(u, rng)
+                P = {"m": (typed, 0), "o": (other["typed"], other["keymode"])}
+                ops = [random_pair_op(u, P, rng, 4) for _ in range(rng.randint(1, 12))]
+                yield {"universe": u, "typed": typed, "init": init2, "other": other, "ops": [list(o) for o in ops]}
+                continue
             ops = [random_op(u, typed, rng, 4) for _ in range(rng.randint(1, 12))]
             yield {"universe": u, "typed": typed, "init": init2, "ops": [list(o) for o in ops]}
         return
@@ -798,10 +1240,13 @@ def gen_cases(tier, rng):
                 for chunk in range(0, len(ops), 1):
                     yield {
                         "universe": u, "typed": typed, "init": [list(x) for x in st],
-                        "ops": [list(ops[chunk])] + [["keys"], ["items"]],
+                        # list and key index are printed and judged after EVERY operation; the explicit keys()/items()
+                        # reads only add those two methods, so in the quick tier every second probe carries them
+                        "ops": [list(ops[chunk])] + ([["keys"], ["items"]] if chunk % 2 == 0 or tier != "quick" else []),
                         "origin": "exhaustive-single",
                     }
-    for _ in range(nrand):
+    yield from pair_cases(tier, rng)
+    for n_ in range(nrand):
         u = rng.choice(UNIVERSES)
         typed = rng.random() < 0.4
         good, _ = universe_items(u, typed)
@@ -811,45 +1256,75 @@ def gen_cases(tier, rng):
                 init.append(list(x))
         if rng.random() < 0.05:
             init.append(list(rng.choice(good)))  # possibly a duplicate key at construction
+        if typed and rng.random() < 0.1:
+            # an inadmissible item at construction, before or after a possible duplicate: the duplicate wins (ValueError
+            # from __init__), else the __orig_class__ setter raises (BaseTypeError, reported as TypeError)
+            _, badl = universe_items(u, typed)
+            init.insert(rng.randint(0, len(init)), list(rng.choice(badl)))
+        if n_ % 3 == 0:
+            # two containers: single-container operations on either one interleaved with cross operations
+            other = random_other(u, rng)
+            P = {"m": (typed, 0), "o": (other["typed"], other["keymode"])}
+            ops = [random_pair_op(u, P, rng, 4) for _ in range(rng.randint(3, 25))]
+            yield {"universe": u, "typed": typed, "init": init, "other": other, "ops": [list(o) for o in ops], "origin": "random-pair"}
+            continue
         ops = [random_op(u, typed, rng, 4) for _ in range(rng.randint(3, 25))]
         yield {"universe": u, "typed": typed, "init": init, "ops": [list(o) for o in ops], "origin": "random"}
 
 
 def shrink(case, at=None):
     ops = case["ops"]
-    if at is not None and at >= 1:
-        yield {**case, "ops": ops[:at]}
+    if at is not None and at >= base(case):
+        yield {**case, "ops": ops[: at - base(case) + 1]}
     for i in range(len(ops)):
         yield {**case, "ops": ops[:i] + ops[i + 1 :]}
 
 
 def nontrivial(case, real):
     keys = []
+    b = base(case)
+    cfg = (case["universe"], case["typed"])
+    if case.get("other"):
+        cfg += (case["other"]["typed"], case["other"]["keymode"])
     for i, op in enumerate(case["ops"]):
-        if i + 1 >= len(real):
+        if i + b >= len(real):
             break
-        pre = real[i].split(" ;; ", 1)[-1]
-        post = real[i + 1].split(" ;; ", 1)[-1]
-        if pre != post or real[i + 1].startswith("err"):
-            keys.append((case["universe"], case["typed"], pre, op))
+        pre = real[i + b - 1].split(" ;; ", 1)[-1]
+        post = real[i + b].split(" ;; ", 1)[-1]
+        if pre != post or real[i + b].startswith("err"):
+            keys.append(cfg + (pre, op))
     return keys
 
 
 def tags(case, real):
     t = [f"universe:{case['universe']}", f"typed:{case['typed']}", f"origin:{case.get('origin', 'corpus')}"]
+    b = base(case)
+    o = case.get("other")
+    if o:
+        t.append(f"pair:other-typed:{o['typed']}")
+        t.append(f"pair:other-keymode:{o['keymode']}")
+        t.append("pair:same-type-parameters" if o["typed"] == case["typed"] else "pair:different-type-parameters")
     for i, op in enumerate(case["ops"]):
-        t.append(f"op:{op[0]}")
-        if i + 1 < len(real):
-            head = real[i + 1].split(" ;; ")[0]
+        name = "o." + op[1] if op[0] == "o" else op[0]
+        t.append(f"op:{name}")
+        if op[0] in VIAS:
+            t.append(f"via:{op[2]}")
+        if i + b < len(real):
+            parts = real[i + b].split(" ;; ")
+            head = parts[0]
             if head.startswith("err"):
                 t.append(head.replace(" ", ":"))
+                if op[0] in CROSS:
+                    t.append(f"cross:{op[0]}:{head.split(' ')[1]}")
+            elif op[0] in CROSS:
+                t.append(f"cross:{op[0]}:ok" + (":nonempty-operand" if o and len(parts) >= 5 and len(parts[3 if op[1] == 'm' else 1]) > 2 else ""))
     t.append(f"len:{len(case['init'])}")
     u = case["universe"]
     if EQMODE[u]:
         # did some state hold two items that are == but have different keys / the same key in two forms?
         for line in real:
             parts = line.split(" ;; ")
-            if len(parts) < 2 or len(parts[1]) < 3:
+            if len(parts) < 2 or len(parts[1]) < 3 or "?" in parts[1]:
                 continue
             its = [tuple(int(v) for v in x.split(":")) for x in parts[1][1:-1].split(",")]
             if any(token_eq(u, x, y) for i, x in enumerate(its) for y in its[i + 1 :]):
@@ -860,7 +1335,7 @@ def tags(case, real):
     return t
 
 MANIFEST_ENTRY = {
-    "level_text": "Lean 4 proof that the KeyedList Impl model (list + insertion-ordered key index, every method of keyed.py and the MutableSequence mixins) keeps the coherence invariant under every operation and operation sequence, refines plain-list semantics with the single uniqueness rule, answers by-key access like a linear scan and is atomic on failure, for any item/key types, any key function and any item-equality relation (Python == on items is a parameter of the model: by-key access is proved independent of it, index/remove/count/in/== follow it); the model is tied to /repo on every run by executing the same operation sequences on spec_classes.types.KeyedList and on the model (exhaustive single operations from every small container, then random sequences) and comparing result, exception class, list and key-index after every step.",
-    "level_note": "Trusted: Lean kernel; axioms propext/Classical.choice/Quot.sound only; the hand-written model and the correspondence harness (7 item universes x typed/untyped, three of them with equal-but-distinct items or keys); key functions pure; item equality pure and reflexive. The theorems are about the model; the per-run correspondence is what ties them to the code.",
+    "level_text": "Lean 4 proof that the KeyedList Impl model (list + insertion-ordered key index, every method of keyed.py and the MutableSequence mixins) keeps the coherence invariant under every operation and operation sequence, refines plain-list semantics with the single uniqueness rule, answers by-key access like a linear scan and is atomic on failure, for any item/key types, any key function and any item-equality relation; the same for TWO containers with unrelated key functions and type parameters and every operation that takes one as the operand of the other (extend, +=, +, ==, construction, extension from a slice or from itself): both stay coherent, failures leave both untouched, the operand is never changed, and nothing of the operand but its items in order reaches the receiver (Python == on items is a parameter of the model: by-key access is proved independent of it, index/remove/count/in/== follow it); the model is tied to /repo on every run by executing the same operation sequences on spec_classes.types.KeyedList and on the model (exhaustive single operations from every small container, every cross operation in both directions from sampled pairs of differently keyed / differently parameterised containers with the operand handed over as KeyedList, list, tuple, generator or KeyedSet, then random sequences) and comparing result, exception class, list and key-index of every container, and of every container an operation returns, after every step.",
+    "level_note": "Trusted: Lean kernel; axioms propext/Classical.choice/Quot.sound only; the hand-written model and the correspondence harness (7 item universes x typed/untyped, three of them with equal-but-distinct items or keys; second container x 3 key functions x typed/untyped); key functions pure; item equality pure and reflexive. The theorems are about the model; the per-run correspondence is what ties them to the code.",
     "technique": "Lean 4 invariant + refinement proof over a hand-written model; differential correspondence against the real KeyedList",
 }
